@@ -28,7 +28,7 @@ Verdict ==
   IN IF \E p \in DOMAIN Obs : paths[p].area = "incoming" /\ Obs[p].present THEN "C29_Discard_real"
      ELSE IF \E p \in DOMAIN Obs : NormObs(Obs[p]) # View(after, paths, p) THEN "C29_RecoverAgrees"
      ELSE IF ~C29_Discard(after, paths) THEN "C29_Discard"
-     ELSE IF ~C29_Others(before, after, paths, targets) THEN "C29_Others"
+     ELSE IF ~C29_Others(before, after, paths, targets, ToSet(C.lease_targets)) THEN "C29_Others"
      ELSE IF C.lease_only /\ ~C29_LeaseOnly(before, after, paths) THEN "C29_LeaseOnly"
      ELSE IF ~C29_AllOrNothing(before, after, paths, C.expect) THEN "C29_AllOrNothing"
      ELSE ""
